@@ -30,16 +30,17 @@ import (
 )
 
 type item struct {
-	Kind   string `json:"kind"`
-	Pkg    string `json:"pkg"`
-	Name   string `json:"name"`
-	Recv   string `json:"recv"`
-	Type   string `json:"type"`
-	Size   int    `json:"size"`
-	Width  int    `json:"width"`
-	Signed bool   `json:"signed"`
-	As     string `json:"as"` // optional Coq name
-	Field  string `json:"field"` // table of struct literals: the field to take
+	Kind   string   `json:"kind"`
+	Pkg    string   `json:"pkg"`
+	Name   string   `json:"name"`
+	Recv   string   `json:"recv"`
+	Type   string   `json:"type"`
+	Size   int      `json:"size"`
+	Width  int      `json:"width"`
+	Signed bool     `json:"signed"`
+	As     string   `json:"as"`     // optional Coq name
+	Field  string   `json:"field"`  // table of struct literals: the field to take
+	Params []string `json:"params"` // rangebound: receiver fields that become parameters
 }
 
 type spec struct {
@@ -359,6 +360,8 @@ type fctx struct {
 	width  int
 	signed bool
 	locals map[string]bool
+	recv   string          // name of the receiver variable (rangebound only)
+	fields map[string]bool // receiver fields that are parameters (rangebound only)
 }
 
 func (c *fctx) wrap(s string) string {
@@ -391,6 +394,12 @@ func (c *fctx) expr(e ast.Expr) string {
 		}
 		fail(pos, "identifier %s is neither a local nor a constant", x.Name)
 	case *ast.SelectorExpr:
+		if id, ok := x.X.(*ast.Ident); ok && c.recv != "" && id.Name == c.recv {
+			if c.fields[x.Sel.Name] {
+				return "v_" + x.Sel.Name
+			}
+			fail(pos, "receiver field %s is not listed in params", x.Sel.Name)
+		}
 		return zlit(c.p.eval(x, 0))
 	case *ast.ParenExpr:
 		return c.expr(x.X)
@@ -753,6 +762,47 @@ func (p *pkgInfo) function(it item) string {
 	return fmt.Sprintf("Definition %s (%s : Z) : %s :=\n%s.\n", name, strings.Join(params, " "), rt, body)
 }
 
+// rangeBound translates the bound of the first `for range <expr>` statement of
+// a function: a Gallina function of the receiver fields listed in it.Params.
+func (p *pkgInfo) rangeBound(it item) string {
+	key := it.Name
+	if it.Recv != "" {
+		key = it.Recv + "." + it.Name
+	}
+	fd, ok := p.funcs[key]
+	if !ok {
+		panic(terr{"unknown function " + key})
+	}
+	c := &fctx{p: p, width: it.Width, signed: it.Signed, locals: map[string]bool{}, fields: map[string]bool{}}
+	if fd.Recv != nil && len(fd.Recv.List) == 1 && len(fd.Recv.List[0].Names) == 1 {
+		c.recv = fd.Recv.List[0].Names[0].Name
+	}
+	var params []string
+	for _, f := range it.Params {
+		c.fields[f] = true
+		params = append(params, "(v_"+f+" : Z)")
+	}
+	var bound ast.Expr
+	ast.Inspect(fd.Body, func(n ast.Node) bool {
+		if rs, ok := n.(*ast.RangeStmt); ok && bound == nil && rs.Key == nil && rs.Value == nil {
+			bound = rs.X
+		}
+		return bound == nil
+	})
+	if bound == nil {
+		fail(p.fset.Position(fd.Pos()), "function %s has no `for range <expr>` statement", key)
+	}
+	name := it.As
+	if name == "" {
+		name = it.Name + "_bound"
+	}
+	sep := ""
+	if len(params) > 0 {
+		sep = " "
+	}
+	return fmt.Sprintf("Definition %s%s%s : Z := %s.\n", name, sep, strings.Join(params, " "), c.expr(bound))
+}
+
 // ---- driver ----
 
 func generate(sp spec) (out string, err error) {
@@ -824,6 +874,8 @@ func generate(sp spec) (out string, err error) {
 			b.WriteString("].\n")
 		case "func":
 			b.WriteString(p.function(it))
+		case "rangebound":
+			b.WriteString(p.rangeBound(it))
 		default:
 			panic(terr{"unknown item kind " + it.Kind})
 		}
